@@ -277,7 +277,26 @@ pub fn finish(ctx: &Ctx, stats: Stats, rep: Report) -> i32 {
                 continue;
             }
             let path = format!("{}/{}-{}.json", rdir, ctx.seed, v.run);
+            // minimise: keep a candidate only if the same oracle still fails
+            let oracle = v.oracle.clone();
+            let prop = ctx.prop;
+            let (min_case, tried) = crate::shrink::minimise(
+                v.case.clone(),
+                &|c| crate::checks::shrink_case(prop, c),
+                &|c| {
+                    crate::common::catch(|| crate::checks::replay(prop, c))
+                        .ok()
+                        .flatten()
+                        .map(|vs| vs.iter().any(|x| x.oracle == oracle))
+                        .unwrap_or(false)
+                },
+                300,
+            );
+            let minimised = min_case != v.case;
             let body = json!({
+                "minimised": minimised,
+                "minimisation_candidates_tried": tried,
+                "original_case": if minimised { v.case.clone() } else { Value::Null },
                 "property": ctx.prop,
                 "seed": ctx.seed,
                 "run": v.run,
@@ -285,7 +304,7 @@ pub fn finish(ctx: &Ctx, stats: Stats, rep: Report) -> i32 {
                 "oracle": v.oracle,
                 "signature": v.signature,
                 "detail": v.detail,
-                "case": v.case,
+                "case": min_case,
             });
             let _ = std::fs::write(&path, serde_json::to_string_pretty(&body).unwrap());
             println!("VIOLATION property={} replay={}", ctx.prop, path);
